@@ -1139,3 +1139,13 @@ func (w *World) PoolSize(name string) int {
 	}
 	return -1
 }
+
+// SyncAllPodCaches makes the informer cache of every pod equal to the truth (lag mode).
+func (w *World) SyncAllPodCaches() {
+	for _, o := range w.podIdx.List() {
+		_ = w.podIdx.Delete(o)
+	}
+	for _, p := range w.Pods {
+		_ = w.podIdx.Add(p.DeepCopy())
+	}
+}
